@@ -106,6 +106,8 @@ C01_Forest(G) ==
           IN  IF G.par[t] \in Task
               THEN Count(G.ch[G.par[t]], t) = 1 /\ occT = 1 /\ occR = 0
               ELSE G.par[t] = 0 /\ occT = 0 /\ occR <= 1
+                   \* a task that reports a WBS and no parent is a root task of that WBS: listed there, once
+                   /\ (G.own[t] \in Wbs => Count(G.ch[Root(G.own[t])], t) = 1)
     /\ \A t \in Task : t \notin Anc(G.par, t)
     /\ \A n \in Node : Ran(G.ch[n]) \subseteq Task
 C01_Mirror(G) ==
